@@ -202,7 +202,7 @@ def lookupKnown (sd : SDesc) (id tag : Nat) : Option (Nat × Field) :=
 def decodeField (P : Params) (S : Schema) (total : Nat) (dt : Ty → Bytes → Val → Outcome (Val × Bytes))
     (f : Field) (b : Bytes) (slot : Val) : Outcome (Val × Bytes) :=
   if P.fixedSize f.ty.tt = 0 && f.nocopy then
-    match decodeStr f.ty.isBinary true total b with
+    match decodeStr (f.ty.isBinary || (P.binarySeesThroughPtr && f.ty.deref.isBinary)) true total b with
     | .ok (v, r2) => .ok (wrapPtr f.ty v, r2)
     | .err e => .err e
     | .panic p => .panic p
